@@ -101,6 +101,8 @@ LABELINGS = {
     "tuple": lambda: Labeling("tuple", lambda i: (i, "x"), shift=-2),
     # digit strings: the same text in a file as the integer ids, another node type
     "dstr": lambda: Labeling("dstr", lambda i: str(i), shift=1),
+    # float node ids (a file token "1.0"; instants numerically equal to node ids)
+    "flt": lambda: Labeling("flt", lambda i: float(i), shift=0),
     # non-ASCII string ids (encodable in latin-1 / cp1252 as well as utf-8)
     "uni": lambda: Labeling("uni", lambda i: ["zo\u00e9", "j\u00fcrgen", "\u00f1u", "\u00e5sa", "caf\u00e9-%d" % i][min(i, 5) - 1] if i < 5 else "caf\u00e9-%d" % i, shift=2),
     "mixed": lambda: Labeling("mixed", _mixed, shift=5, swap_undirected=True),
